@@ -99,7 +99,9 @@ for case in job['unchecked']:
             except Exception as ex:
                 st = type(ex).__name__
         o = {'st': st, 'pr': bool(buf.getvalue()), 'uno': [c._vid for c in e.get_children(ordered=False)],
-             'ord': [c._vid for c in e.get_children(ordered=True)]}
+             'ord': [c._vid for c in e.get_children(ordered=True)],
+             # switching the checks off must not switch off the tree: every child points at the element and sits one level below it
+             'linked': all(c.up is e and c.get_level() == e.get_level() + 1 for c in e.get_children(ordered=False))}
         if txt is not None:
             o['txt'] = txt
             o['names'] = [c.name for c in e.get_children(ordered=False)]
